@@ -21,7 +21,7 @@ def generators():
 def run_all(only=None):
     changed = []
     for name in generators():
-        if only and name not in only:
+        if only is not None and name not in only:
             continue
         mod = importlib.import_module("harness.translate." + name)
         if not hasattr(mod, "generate"):
